@@ -86,14 +86,15 @@ const char* get_default_value(const char* port_name, const Ports& ports,
 
         assert(strlen(dependent_value) < 16); // must be an int
 
-        char* default_variant = buffer;
-        *default_variant = 0;
-        assert(strlen(default_annotation) + 1 + 16 < buffersize);
+        // dependent_value may live in "buffer" (right behind the name of
+        // the port it was read from), so build the key somewhere else
+        char default_variant[sizeof(default_annotation) + 1 + 16] = "";
         strncat(default_variant, default_annotation,
-                buffersize - strlen(default_variant));
-        strncat(default_variant, " ", buffersize - strlen(default_variant));
+                sizeof(default_variant) - strlen(default_variant) - 1);
+        strncat(default_variant, " ",
+                sizeof(default_variant) - strlen(default_variant) - 1);
         strncat(default_variant, dependent_value,
-                buffersize - strlen(default_variant));
+                sizeof(default_variant) - strlen(default_variant) - 1);
 
         return_value = metadata[default_variant];
     }
